@@ -64,6 +64,7 @@ CONSTANTS
     Delays,             \* delays SetTimeout may use (model checking only)
     EncFails, DecFails, \* subsets of BOOLEAN: may encode() / decode() of a chain raise
     MaxCb, MaxTrig,     \* bounds for model checking: user callbacks per object, outstanding triggers
+    MaxFire,            \* ... and calls per callback
     CbOn, TimerOn,      \* model checking: the objects that get user callbacks / timeouts
     Ops,                \* model checking: which of the optional calls are in the alphabet ("request", "complete", "abort",
                         \* "cabort", "qabort", "gabort", "settle"; deferred calls, timers, GAdd, Chain always are)
@@ -340,8 +341,9 @@ Next ==
     \/ \E g \in G : ("gabort" \in Ops /\ GAbortOp(g)) \/ \E m \in B \cup C : GAdd(g, m)
     \/ \E c \in C, p \in B, ef \in EncFails, df \in DecFails : Chain(c, p, ef, df)
 
-Bound == trig <= MaxTrig
-\* (the bound on outstanding triggers is part of the next-state relation: no CONSTRAINT needed, liveness stays meaningful)
+Bound == /\ trig <= MaxTrig
+         /\ \A x \in X : \A j \in 1..Len(cbs[x]) : cbs[x][j] <= MaxFire    \* (only a deviation lets a callback run that often)
+\* (the bounds are part of the next-state relation: no CONSTRAINT needed, liveness stays meaningful)
 Spec == Init /\ [][Next /\ Bound']_vars
 
 ----------------------------------------------------------------------------
